@@ -673,7 +673,7 @@ UNITS = [
     U(id="pfx_swap", props=["C06", "C16"], file="units/swap.c", entry="h_pfx_swap", enforce=["pfx_table_swap"], kind="complete", native=None,
       stubs=["pthread_rwlock_*"]),
     U(id="spki_swap", props=["C06", "C10", "C16"], file="units/spki_swap.c", entry="h_spki_swap", enforce=[], plain=True,
-      checked_by_assertions=["spki_table_swap"], need_classes=["assertion"], kind="complete", bound=600, native=None, timeout=1200,
+      checked_by_assertions=["spki_table_swap"], need_classes=["assertion"], kind="complete", bound=600, native={"skip_all": True, "libs": ["-lpthread"]}, timeout=1200,
       allow_undefined=True, stubs=["pthread_rwlock_*"]),
     U(id="lemma_path", props=["C01", "C02"], file="units/lemma.c", entry="h_lemma_path", enforce=[], plain=True, checked_by_assertions=[],
       need_classes=["assertion"], kind="complete", native=None, allow_undefined=True),
@@ -700,27 +700,27 @@ UNITS = [
     U(id="spki_add", props=["C10", "C16", "C18"], file="units/spki_ops.c", entry="h_spki_add", tier="lab", defines=["H_ENTRY=h_spki_add", "KN=2"], enforce=[], plain=True,
       checked_by_assertions=["spki_table_add_entry", "key_entry_cmp", "tommy_hashlin_search"], need_classes=["assertion"], kind="bounded: bucket chain / list of at most 2 entries",
       bound=93, unwindset={"tommy_hashlin_search.0": 4, "tommy_hashlin_remove.0": 4},
-      native=None, timeout=1800, allow_undefined=True, stubs=["lrtr_malloc", "lrtr_free", "tommy_hashlin_insert", "tommy_hashlin_remove", "pthread_rwlock_*"]),
+      native={"skip_all": True, "libs": ["-lpthread"]}, timeout=1800, allow_undefined=True, stubs=["lrtr_malloc", "lrtr_free", "tommy_hashlin_insert", "tommy_hashlin_remove", "pthread_rwlock_*"]),
     U(id="spki_remove", props=["C10", "C16", "C18"], file="units/spki_ops.c", entry="h_spki_remove", tier="lab", defines=["H_ENTRY=h_spki_remove", "KN=2"], enforce=[], plain=True,
       checked_by_assertions=["spki_table_remove_entry", "key_entry_cmp", "tommy_hashlin_search"], need_classes=["assertion"], kind="bounded: bucket chain / list of at most 2 entries",
       bound=93, unwindset={"tommy_hashlin_search.0": 4, "tommy_hashlin_remove.0": 4},
-      native=None, timeout=1800, allow_undefined=True, stubs=["lrtr_malloc", "lrtr_free", "tommy_hashlin_insert", "tommy_hashlin_remove", "pthread_rwlock_*"]),
+      native={"skip_all": True, "libs": ["-lpthread"]}, timeout=1800, allow_undefined=True, stubs=["lrtr_malloc", "lrtr_free", "tommy_hashlin_insert", "tommy_hashlin_remove", "pthread_rwlock_*"]),
     U(id="spki_copy", props=["C06", "C10", "C16", "C18"], file="units/spki_ops.c", entry="h_spki_copy", tier="lab", defines=["H_ENTRY=h_spki_copy"], enforce=[], plain=True,
       checked_by_assertions=["spki_table_copy_except_socket", "spki_table_add_entry"], need_classes=["assertion"], kind="bounded: source list of at most 3 entries, empty destination",
       bound=93, unwindset={"spki_table_copy_except_socket.0": 5, "tommy_hashlin_search.0": 2},
-      native=None, timeout=1800, allow_undefined=True, stubs=["lrtr_malloc", "lrtr_free", "tommy_hashlin_insert", "pthread_rwlock_*"]),
+      native={"skip_all": True, "libs": ["-lpthread"]}, timeout=1800, allow_undefined=True, stubs=["lrtr_malloc", "lrtr_free", "tommy_hashlin_insert", "pthread_rwlock_*"]),
     U(id="spki_get_all", props=["C10", "C16", "C18"], file="units/spki_ops.c", entry="h_spki_get_all", defines=["H_ENTRY=h_spki_get_all"], enforce=[], plain=True,
       checked_by_assertions=["spki_table_get_all"], need_classes=["assertion"], kind="bounded: bucket chain / list of at most 3 entries",
       bound=93, unwindset={"spki_table_get_all.0": 5, "spki_table_search_by_ski.0": 5, "spki_table_src_remove.0": 5},
-      native=None, timeout=1800, allow_undefined=True, stubs=["lrtr_realloc", "lrtr_free", "tommy_hashlin_remove_existing", "pthread_rwlock_*"]),
+      native={"skip_all": True, "libs": ["-lpthread"]}, timeout=1800, allow_undefined=True, stubs=["lrtr_realloc", "lrtr_free", "tommy_hashlin_remove_existing", "pthread_rwlock_*"]),
     U(id="spki_search", props=["C10", "C16", "C18"], file="units/spki_ops.c", entry="h_spki_search", defines=["H_ENTRY=h_spki_search"], enforce=[], plain=True,
       checked_by_assertions=["spki_table_search_by_ski"], need_classes=["assertion"], kind="bounded: bucket chain / list of at most 3 entries",
       bound=93, unwindset={"spki_table_get_all.0": 5, "spki_table_search_by_ski.0": 5, "spki_table_src_remove.0": 5},
-      native=None, timeout=1800, allow_undefined=True, stubs=["lrtr_realloc", "lrtr_free", "tommy_hashlin_remove_existing", "pthread_rwlock_*"]),
+      native={"skip_all": True, "libs": ["-lpthread"]}, timeout=1800, allow_undefined=True, stubs=["lrtr_realloc", "lrtr_free", "tommy_hashlin_remove_existing", "pthread_rwlock_*"]),
     U(id="spki_src_remove", props=["C10", "C16", "C18"], file="units/spki_ops.c", entry="h_spki_src_remove", defines=["H_ENTRY=h_spki_src_remove"], enforce=[], plain=True,
       checked_by_assertions=["spki_table_src_remove"], need_classes=["assertion"], kind="bounded: bucket chain / list of at most 3 entries",
       bound=93, unwindset={"spki_table_get_all.0": 5, "spki_table_search_by_ski.0": 5, "spki_table_src_remove.0": 5},
-      native=None, timeout=1800, allow_undefined=True, stubs=["lrtr_realloc", "lrtr_free", "tommy_hashlin_remove_existing", "pthread_rwlock_*"]),
+      native={"skip_all": True, "libs": ["-lpthread"]}, timeout=1800, allow_undefined=True, stubs=["lrtr_realloc", "lrtr_free", "tommy_hashlin_remove_existing", "pthread_rwlock_*"]),
     # ------------------------------------------------------------------ C20
     U(id="c20_state_names", props=["C20"], file="units/c20_state_names.c", entry="h_c20_state",
       enforce=["rtr_state_to_str"], kind="complete", bound=70,
